@@ -21,7 +21,7 @@ from sim.fingerprint import obs_equal
 from sim.world import Session, classify, exc_signature, reference_world
 
 PROPERTY = "C08"
-SESSIONS = {"quick": 120, "thorough": 3000}
+SESSIONS = {"quick": 120, "thorough": 150}
 BUDGET_S = {"quick": 110, "thorough": 1500}
 CAP_S = {"quick": 240, "thorough": 480}
 RULE = ("one session = one generated recipe: transcripts of every target are compared across (second build, rebuild after drop+GC, pristine "
